@@ -87,9 +87,20 @@ def run(ctx):
             ok = True
             msg = ""
             if dotted(d.func) == "self._dispatch":
-                p = getattr(d, "_parent", None)
-                ok = isinstance(p, ast.Call) and dotted(p.func) == "all"
-                msg = "a multiplexer's verdict must be all() over its wrapped results"
+                # decided on an abstract run over two wrapped results and every combination of their verdicts
+                from .. import effects
+                from ..absint import FALSE as A_F, TRUE as A_T
+                bad = []
+                for v0 in (A_T, A_F):
+                    for v1 in (A_T, A_F):
+                        dom = effects.EffectDomain(classes, attrs={"self._results": ("tuple", ("wobj", "r0"), ("wobj", "r1"))},
+                                                   results={"r0.wasSuccessful": [v0], "r1.wasSuccessful": [v1]})
+                        outs = {(r.kind, r.value, tuple(e[0] for e in effects.calls(r))) for r in effects.run(ctx, dom, f, c)}
+                        want = ("val", A_T if (v0 == A_T and v1 == A_T) else A_F, ("r0.wasSuccessful", "r1.wasSuccessful"))
+                        if outs != {want}:
+                            bad.append(f"verdicts ({v0}, {v1}) -> {sorted(map(repr, outs))}")
+                ok = not bad
+                msg = "a multiplexer's verdict must be the conjunction of the verdicts of all its wrapped results, each asked once: " + "; ".join(bad)
             ctx.check("R-VERDICT-LISTS", f"{c.name}.wasSuccessful delegates ({name})", f, ok, msg, construct=f"{REAL}:{c.name}.wasSuccessful::delegate")
             continue
         read = self_attrs_loaded(f)
@@ -148,12 +159,25 @@ def run(ctx):
     ctx.check("R-SUMMARY-AGREES", "OK / FAILED arm chosen by wasSuccessful()", stop, ok,
               "the OK/FAILED line is not selected by self.wasSuccessful()", construct=f"{T}::verdict-arm")
     summed = set()
+    local_defs = {}
+    for n in walk_shallow(stop, include_self=False):
+        if isinstance(n, ast.Assign) and len(n.targets) == 1 and isinstance(n.targets[0], ast.Name):
+            local_defs.setdefault(n.targets[0].id, []).append(n.value)
+
+    def self_lists_in(expr, depth=0):
+        out = set()
+        for x in ast.walk(expr):
+            ch = attr_chain(x) if isinstance(x, ast.Attribute) else None
+            if ch and ch[0] == "self" and len(ch) == 2:
+                out.add(ch[1])
+            if isinstance(x, ast.Name) and isinstance(x.ctx, ast.Load) and depth < 3:
+                for v in local_defs.get(x.id, []):
+                    out |= self_lists_in(v, depth + 1)
+        return out
+
     for c in ast.walk(stop):
         if isinstance(c, ast.Call) and dotted(c.func) == "sum":
-            for x in ast.walk(c):
-                ch = attr_chain(x) if isinstance(x, ast.Attribute) else None
-                if ch and ch[0] == "self" and len(ch) == 2:
-                    summed.add(ch[1])
+            summed |= self_lists_in(c)
     ctx.check("R-SUMMARY-AGREES", "failure total sums exactly the lists wasSuccessful reads", stop, summed == verdict_lists,
               f"failure total sums {sorted(summed)} but wasSuccessful reads {sorted(verdict_lists)}", construct=f"{T}::failure-total")
     rendered = set()
@@ -180,10 +204,21 @@ def run(ctx):
     # ------------------------------------------------------------------ R-EXIT-STATUS
     RUN = "testtools.run"
     rt = own_method(ctx, RUN, "TestProgram", "runTests")
-    exits = calls_named(rt, "sys.exit")
-    ok = len(exits) == 1 and len(exits[0].args) == 1 and norm(exits[0].args[0]) == "not self.result.wasSuccessful()"
-    ctx.check("R-EXIT-STATUS", "exit status is not result.wasSuccessful()", rt, ok,
-              f"sys.exit argument is {norm(exits[0].args[0]) if exits and exits[0].args else '<missing>'}", construct=f"{RUN}:TestProgram.runTests::exit")
+    from .. import effects
+    from ..absint import FALSE as A_F, TRUE as A_T
+    tp = classes.get(RUN, "TestProgram")
+    problems = []
+    for exit_flag in (A_T, A_F):
+        for verdict in (A_T, A_F):
+            dom = effects.EffectDomain(classes, attrs={"self.exit": exit_flag}, track=lambda d: d == "sys.exit",
+                                       results={"self.result.wasSuccessful": [verdict]}, raises={"sys.exit": [("exc", "SystemExit")]}, inline=False)
+            seen_ = {tuple((e[0], e[1]) for e in effects.calls(r, "sys.exit")) for r in effects.run(ctx, dom, rt, tp) if not (r.kind == "exc" and r.value != ("exc", "SystemExit"))}
+            want = {(("sys.exit", (A_F if verdict == A_T else A_T,)),)} if exit_flag == A_T else {()}
+            if seen_ != want:
+                problems.append(f"exit={exit_flag}, wasSuccessful()={verdict}: sys.exit calls {sorted(map(repr, seen_))}")
+    ctx.check("R-EXIT-STATUS", "exit status is not result.wasSuccessful()", rt, not problems,
+              "the process exit status is not `not result.wasSuccessful()` (or sys.exit is not called exactly when self.exit is set): " + "; ".join(problems),
+              construct=f"{RUN}:TestProgram.runTests::exit")
     assigned = [n for n in walk_shallow(rt, include_self=False) if isinstance(n, ast.Assign) and dotted(n.targets[0]) == "self.result"
                 and isinstance(n.value, ast.Call) and isinstance(n.value.func, ast.Attribute) and n.value.func.attr == "run" and n.value.args and dotted(n.value.args[0]) == "self.test"]
     ctx.check("R-EXIT-STATUS", "result is what the runner returned for self.test", rt, len(assigned) == 1, "self.result is not testRunner.run(self.test)", construct=f"{RUN}:TestProgram.runTests::result")
@@ -209,38 +244,41 @@ def run(ctx):
     ctx.check("R-EXIT-STATUS", "runner keeps the failfast option", gi, ok, "TestToolsTestRunner.__init__ drops failfast", construct=f"{RUN}:TestToolsTestRunner.__init__::failfast")
 
     # ------------------------------------------------------------------ R-FAILFAST-SET
-    def stops_under_failfast(func):
-        """Does every normal path through func pass `if self.failfast: self.stop()`?"""
-        g = cfg_of(ctx, func)
-        lv = live_nodes(g)
-        tests = []
-        for n in g.nodes:
-            if n.id in lv and n.kind == "test" and isinstance(n.ast, ast.If) and norm(n.ast.test) == "self.failfast":
-                if any(isinstance(c, ast.Call) and dotted(c.func) == "self.stop" for s in n.ast.body for c in walk_shallow(s)):
-                    tests.append(n.id)
-        if not tests:
-            return None, None
-        esc = g.escape_path([g.entry], set(tests), targets=[g.exit_return])
-        return esc is None, (g.describe_path(esc) if esc else None)
+    from .. import effects
+    from ..absint import FALSE as A_FALSE, TRUE as A_TRUE
+
+    def stop_counts(c, func, failfast):
+        """Set of numbers of self.stop() calls over the normal paths of func, with self.failfast = failfast."""
+        dom = effects.EffectDomain(classes, attrs={"self.failfast": failfast, "self._failfast": failfast}, track=lambda d: d == "self.stop")
+        params = [a.arg for a in func.args.args][1:]
+        argv = {p_: ("arg", p_) for p_ in params}
+        if "err" in argv and "details" in argv:
+            argv["details"] = "None"   # callers pass exactly one of err / details
+        res = effects.run(ctx, dom, func, c, argv)
+        return {len(effects.calls(r, "self.stop")) for r in res if r.kind == "val"}
 
     n_ff = 0
     for c in sorted(real_classes, key=lambda c: c.node.lineno):
-        consult = [m for m in sorted(FAILING | PASSING) if c.methods.get(m) is not None and "failfast" in self_attrs_loaded(c.methods[m])]
+        consult = []
+        for m in sorted(FAILING | PASSING):
+            f = c.methods.get(m)
+            if f is not None and any(n_ >= 1 for n_ in stop_counts(c, f, A_TRUE)):
+                consult.append(m)
         if not consult:
             continue
         for m in sorted(FAILING | PASSING):
             f = c.methods.get(m)
             if f is None:
                 continue
-            always, path = stops_under_failfast(f)
+            on, off = stop_counts(c, f, A_TRUE), stop_counts(c, f, A_FALSE)
             n_ff += 1
             if m in FAILING:
-                ctx.check("R-FAILFAST-SET", f"{c.name}.{m} stops under failfast", f, always is True,
-                          f"{c.name}.{m} can return without `if self.failfast: self.stop()`: failfast would not stop at this failing outcome",
-                          path=path, construct=f"{REAL}:{c.name}.{m}::failfast-stop")
+                ctx.check("R-FAILFAST-SET", f"{c.name}.{m} stops under failfast (and only then)", f, bool(on) and min(on) >= 1 and off <= {0},
+                          f"{c.name}.{m}: self.stop() is called {sorted(on)} time(s) on its returning paths with failfast set and {sorted(off)} with failfast unset: "
+                          "failfast would not stop at this failing outcome" if not (bool(on) and min(on) >= 1) else f"{c.name}.{m} stops although failfast is unset",
+                          construct=f"{REAL}:{c.name}.{m}::failfast-stop")
             else:
-                direct_stop = [x for x in walk_shallow(f, include_self=False) if isinstance(x, ast.Call) and dotted(x.func) == "self.stop"]
-                ctx.check("R-FAILFAST-SET", f"{c.name}.{m} does not stop", f, always is None and not direct_stop,
+                ctx.check("R-FAILFAST-SET", f"{c.name}.{m} does not stop", f, on <= {0} and off <= {0},
                           f"{c.name}.{m} is a passing outcome but requests a stop", construct=f"{REAL}:{c.name}.{m}::no-stop")
     ctx.floor("R-FAILFAST-SET", 12, "outcome methods in classes consulting failfast")
     # stream side: statuses emitted for the failing methods == StreamFailFast trigger set
@@ -254,10 +292,17 @@ def run(ctx):
             if isinstance(c, ast.Call) and dotted(c.func) == "self._convert" and len(c.args) >= 4:
                 emitted[m] = str_const(c.args[3])
     ff = own_method(ctx, REAL, "StreamFailFast", "status")
+    sff = classes.get(REAL, "StreamFailFast")
     trig = set()
-    for n in ast.walk(ff):
-        if isinstance(n, ast.Compare) and dotted(n.left) == "test_status" and isinstance(n.ops[0], ast.In) and isinstance(n.comparators[0], (ast.Tuple, ast.List, ast.Set)):
-            trig = {str_const(e) for e in n.comparators[0].elts}
+    for status in ("exists", "inprogress", "xfail", "uxsuccess", "success", "fail", "skip", None):
+        dom = effects.EffectDomain(classes, track=lambda d: d == "self.on_error")
+        argv = {a.arg: ("arg", a.arg) for a in ff.args.args[1:]}
+        argv["test_status"] = ("const", status) if status is not None else "None"
+        counts = {len(effects.calls(r, "self.on_error")) for r in effects.run(ctx, dom, ff, sff, argv) if r.kind == "val"}
+        if counts == {1}:
+            trig.add(status)
+        elif counts != {0}:
+            trig.add(f"?{status}:{sorted(counts)}")
     fail_status = {emitted.get(m) for m in FAILING}
     pass_status = {emitted.get(m) for m in PASSING}
     ctx.check("R-FAILFAST-SET", "StreamFailFast triggers = statuses emitted for failing outcomes", ff,
@@ -304,14 +349,23 @@ def run(ctx):
         c = classes.get(REAL, cname)
         # stop
         owner, f = classes.resolve_method(c, "stop")
-        ok = owner is not None and not owner.external and reaches_wrapped(f, attr, how, "stop")
+        ok = False
+        if owner is not None and not owner.external and isinstance(f, FUNC_TYPES):
+            from .. import effects
+            wrapped = ("tuple", ("wobj", "w0"), ("wobj", "w1")) if how == "dispatch" else ("wobj", "w0")
+            ids = ["w0", "w1"] if how == "dispatch" else ["w0"]
+            dom = effects.EffectDomain(classes, attrs={f"self.{attr}": wrapped})
+            res_ = [r for r in effects.run(ctx, dom, f, c) if r.kind == "val"]
+            ok = bool(res_) and all([e[0] for e in effects.calls(r) if e[0].endswith(".stop")] == [f"{i}.stop" for i in ids] for r in res_)
         ctx.check("R-CONTROL-PLUMBED", f"{cname}.stop reaches the wrapped result(s)", f if isinstance(f, FUNC_TYPES) else c.node, ok,
                   f"{cname}.stop resolves to {owner.qual if owner else None} and does not forward to self.{attr}", construct=f"{REAL}:{cname}::stop")
         if cname == "MultiTestResult" and isinstance(f, FUNC_TYPES):
             d = classes.get(REAL, "MultiTestResult").own_method("_dispatch")
-            gens = [n for n in ast.walk(d) if isinstance(n, (ast.GeneratorExp, ast.ListComp))]
-            ok = len(gens) == 1 and dotted(gens[0].generators[0].iter) == "self._results" and not gens[0].generators[0].ifs and (
-                isinstance(gens[0], ast.ListComp) or (isinstance(getattr(gens[0], "_parent", None), ast.Call) and dotted(gens[0]._parent.func) in ("tuple", "list")))
+            dom = effects.EffectDomain(classes, attrs={"self._results": ("tuple", ("wobj", "w0"), ("wobj", "w1"))})
+            res_ = effects.run(ctx, dom, d, c, {"message": ("const", "anyMethod"), d.args.vararg.arg if d.args.vararg else "args": ("tuple", ("arg", 0)),
+                                                 d.args.kwarg.arg if d.args.kwarg else "kwargs": ("kwdict", (("k", ("arg", "k")),))})
+            want_calls = [("w0.anyMethod", (("arg", 0),), (("k", ("arg", "k")),)), ("w1.anyMethod", (("arg", 0),), (("k", ("arg", "k")),))]
+            ok = bool(res_) and all(r.kind == "val" and effects.calls(r) == want_calls and r.value == ("tuple", ("ret", "w0", "anyMethod"), ("ret", "w1", "anyMethod")) for r in res_)  # a lazy result would be ("lazyseq", ...)
             ctx.check("R-CONTROL-PLUMBED", "MultiTestResult._dispatch calls every wrapped result (strict)", d, ok,
                       "_dispatch does not eagerly call the message on every element of self._results", construct=f"{REAL}:MultiTestResult._dispatch::all")
         # shouldStop
